@@ -49,6 +49,11 @@ def build(rng, facts, name):
     if rng.random() < 0.5: b.kclear("kk")
     for v in rand_values(rng, rng.choice([2, 6, 30]), -2, 2): b.kadd("kk", v, rng.choice([None, 2.0, 0.75]))
     b.emit("kpobs PP", ("same", jpp)); b.emit("kpmarshal mb2 PP", "ok"); b.emit("kpunmarshal PP2 mb2", "ok"); b.emit("kpobs PP2", ("same", jpp))
+    # a caller edits the message it was handed (every count multiplied in place): the edited message is the model's (Wire/ProtoEdit.v), rebuilds to
+    # what the model rebuilds, and neither the sketch nor a message converted earlier follows it
+    if not arbitrary and not ends:
+        fe = rng.choice([2.0, 0.5, 0.25, 4.0, 0.0]); b.emit("ktoproto PE k", "ok"); b.emit("kpscale PE %s" % f2h(fe), "ok"); b.emit("kpobs PE")
+        b.emit("kfromproto re PE %s" % rng.choice(["sparse", "pag", "default"]), "ok"); b.emit("kobs re"); b.emit("kobs k", same0); b.emit("kpobs P", ("same", jp))
     # rebuilding has no memory: a message of the same kind and base with another offset rebuilt just before does not leak into this one
     fsp = facts[spec]; sib = "%s:g:%s:%s" % (fsp["kind"], f2h(fsp["gamma"]), f2h(fsp["off"] + rng.choice([7.25, -3.5])))
     b.knew("ks", sib, "sparse", "sparse"); b.kadd("ks", 1.5); b.emit("ktoproto Ps ks", "ok"); b.emit("kfromproto rs Ps sparse", "ok")
